@@ -8,7 +8,7 @@ import asyncio
 import itertools
 
 from hv import boot  # noqa: F401
-from hv.core import Result, viol
+from hv.core import Result, task_failure, viol
 from hv.ctxkit import (
     SUPPLY,
     disposables_for,
@@ -277,9 +277,9 @@ def execute(program, ch: Chooser) -> Result:  # noqa: C901, PLR0915
         loop.run_ready()
         if not task.done():
             raise RuntimeError("C01 driver did not finish")
-        exc = task.exception()
-        if exc is not None:
-            viols.append(viol("driver", type(exc).__name__, "program runs", repr(exc)[:200]))
+        fail = task_failure(task)
+        if fail is not None:
+            viols.append(viol("driver", fail.split("(")[0][:40], "program runs", fail))
         nontrivial = stats["shadow"] or stats["dup"] or stats["sub"] or stats["prep"] or stats["abnormal"] or stats["equal"]
         outcome = f"shadow={stats['shadow']}/dup={stats['dup']}/sub={stats['sub']}/prep={stats['prep']}/abn={stats['abnormal']}/probes={min(len(probes), 9)}"
         return Result(outcome, nontrivial, viols[:4], {"probes": probes[:12]}, steps=len(probes) + 2 * next(counter))
